@@ -341,7 +341,8 @@ impl<Y: Sys> Visitor<Y> for ValidateMerge {
                 let spent = Y::double_spent(sa, sb);
                 if !self.misuse {
                     if let Err(e) = &ab {
-                        sink.fail(h, "false-merge-reject", a.0 | b.0, || format!("correct use, a = {}; b = {}: validate_merge = Err({})", h.derivation(a.0, a.1), h.derivation(b.0, b.1), e));
+                        let kind = format!("false-merge-reject{}", Y::merge_reject_site(&h.recs, sa, sb));
+                        sink.fail(h, &kind, a.0 | b.0, || format!("correct use, a = {}; b = {}: validate_merge = Err({})", h.derivation(a.0, a.1), h.derivation(b.0, b.1), e));
                     }
                 } else if spent && ab.is_ok() {
                     let kind = format!("missed-double-spend{}", Y::double_spent_site(sa, sb));
